@@ -121,8 +121,8 @@ def floatenum_init_shape():
 
 # ------------------------------------------------------------------ limits
 def check_limits_shape():
-    """Module.checkLimits: first <p>_limits (min_ <= value <= max_, then return), AttributeError -> <p>_min / <p>_max with
-    infinite defaults; min_ > max_ raises; value < min_ raises; value > max_ raises"""
+    """Module.checkLimits: first <p>_limits (min_ <= value <= max_, NO return afterwards), AttributeError is passed; then in
+    every case <p>_min / <p>_max with infinite defaults; min_ > max_ raises; value < min_ raises; value > max_ raises"""
     f = find_func(find_class(parse(MOD), 'Module'), 'checkLimits')
     s = _norm(f)
     tries = [n for n in f.body if isinstance(n, ast.Try)]
@@ -133,7 +133,7 @@ def check_limits_shape():
     raises = [_norm(n.test) for n in f.body if isinstance(n, ast.If)
               and any(isinstance(x, ast.Raise) and 'RangeError' in _norm(x) for x in n.body)]
     ok = ("min_,max_=getattr(self,pname+'_limits')" in t and 'ifnotmin_<=value<=max_:raiseRangeError' in t.replace('\n', '')
-          and t.rstrip().endswith('return')
+          and 'return' not in t and not walk_type(f, ast.Return)
           and len(h) == 1 and _norm(h[0].type) == 'AttributeError'
           and "min_=getattr(self,pname+'_min',float('-inf'))" in s and "max_=getattr(self,pname+'_max',float('inf'))" in s
           and raises == ['min_>max_', 'value<min_', 'value>max_'])
